@@ -301,6 +301,19 @@ namespace BitSerializer::Convert::Utf
 					}
 				}
 
+				// Validate UTF-32 (surrogates and code points above U+10FFFF are prohibited)
+				if constexpr (sizeof(InCharType) == sizeof(char32_t))
+				{
+					if (UnicodeTraits::IsInSurrogatesRange(sym) || sym > 0x10FFFF)
+					{
+						++invalidSequencesCount;
+						if (!Detail::HandleEncodingError(outStr, errorPolicy, errorMark)) {
+							return UtfEncodingResult(UtfEncodingErrorCode::InvalidSequence, startTailPos, invalidSequencesCount);
+						}
+						continue;
+					}
+				}
+
 				if (sym < 0x800)
 				{
 					outStr.append({
@@ -444,10 +457,21 @@ namespace BitSerializer::Convert::Utf
 			}
 			else if constexpr (sizeof(TInCharType) == sizeof(char32_t))
 			{
+				size_t invalidSequencesCount = 0;
 				while (in != end)
 				{
+					TInIt startTailPos = in;
 					uint32_t sym = *in;
 					++in;
+					// Validate UTF-32 (surrogates and code points above U+10FFFF are prohibited)
+					if (UnicodeTraits::IsInSurrogatesRange(sym) || sym > 0x10FFFF)
+					{
+						++invalidSequencesCount;
+						if (!Detail::HandleEncodingError(outStr, errorPolicy, errorMark)) {
+							return UtfEncodingResult(UtfEncodingErrorCode::InvalidSequence, startTailPos, invalidSequencesCount);
+						}
+						continue;
+					}
 					if (sym < 0x10000)
 					{
 						outStr.push_back(static_cast<TOutChar>(sym));
@@ -460,6 +484,7 @@ namespace BitSerializer::Convert::Utf
 						outStr.push_back(static_cast<TOutChar>(UnicodeTraits::LowSurrogatesStart | (sym & 0x3FF)));
 					}
 				}
+				return UtfEncodingResult(UtfEncodingErrorCode::Success, in, invalidSequencesCount);
 			}
 			return UtfEncodingResult(UtfEncodingErrorCode::Success, in, 0);
 		}
